@@ -48,6 +48,12 @@ struct GMsg {
   int bounces_sent = 0;
 };
 
+struct RouteConf {
+  std::set<std::string> locals, percenthack; std::map<std::string, std::string> vdoms; std::string envnoathost;
+  static void set_lines(std::set<std::string> &dst, const std::string &data); void set_vdoms(const std::string &data);
+  int route(const std::string &recip, std::string &out) const;
+};
+
 struct SpawnCmd { int chan; int delnum; std::string messid, sender, recip; int64_t t; uint64_t num; };
 
 struct Attempt { std::string v; std::string text; int64_t lat = 0; std::string raw; bool die = false; };
@@ -116,6 +122,9 @@ struct WorldQ : World {
   void finish_c01(); void finish_c03();
   bool enabled(const std::string &oracle) const;
   std::set<std::string> oracles_off, oracles_on;
+  // C10: configuration in force (what the daemon last read successfully)
+  RouteConf rc_force, rc_cand; bool rc_valid = false, rc_reading = false, rc_failed = false, rc_seen_locals = false, rc_seen_vdoms = false; std::string rc_me;
+  void c10_on_send_event(const Event &e); void c10_check_preprocessed(GMsg *m); void c10_check_command(const SpawnCmd &c, GMsg *m);
   // C14 reference configuration
   std::map<std::string, std::string> vdoms_ref; std::string bfrom = "MAILER-DAEMON", bhost = "sim.example", dbto = "postmaster", dbhost = "sim.example"; int note_counter = 0;
   std::string strip_prepend(const std::string &recip) const; void check_bounce(GMsg *b); void finish_c14();
